@@ -11,6 +11,9 @@ import (
 	"strings"
 	"testing"
 
+	ledger "github.com/formancehq/ledger/internal"
+	"github.com/formancehq/ledger/internal/api/backend"
+	"github.com/formancehq/ledger/verifharness/enginesim"
 	"github.com/formancehq/ledger/verifharness/evid"
 	"github.com/formancehq/ledger/verifharness/httpsim"
 	"pgregory.net/rapid"
@@ -221,9 +224,13 @@ func callMarker(c httpsim.Call) string {
 
 func TestC18(t *testing.T) {
 	c := evid.New("C18")
-	c.Rule = "bulk bodies of 0-8 elements over the four actions plus unknown / wrong-case / empty action strings, well-formed data per action (posting and script mode, account and transaction targets), per-element ik, a generated success/failure pattern with error classes (insufficient funds, validation, not found, internal), continueOnFailure in {absent,true,false,1,TRUE}; side class: one element whose data does not decode. Oracle (positional model): backend calls == executable elements up to and including the first failure (all of them with continue-on-failure), in order, each with its own parameters and ik; exactly one result per processed element, results[i] describing element i; nothing after the first failure; HTTP 400 iff a processed element failed. Non-trivial = >=3 elements with a failure strictly inside; distinct by (actions, failure pattern, flag)."
+	c.Rule = "bulk bodies of 0-8 elements over the four actions plus unknown / wrong-case / empty action strings, well-formed data per action (posting and script mode, account and transaction targets), per-element ik, a generated success/failure pattern with error classes (insufficient funds, validation, not found, internal), continueOnFailure in {absent,true,false,1,TRUE}; side class: one element whose data does not decode. Oracle (positional model): backend calls == executable elements up to and including the first failure (all of them with continue-on-failure), in order, each with its own parameters and ik; exactly one result per processed element, results[i] describing element i; nothing after the first failure; HTTP 400 iff a processed element failed. A second family (25%) serves the bulk through a real Commander over the model store with elements whose outcome is known by construction (funded / unfunded sources, existing / missing revert and metadata targets): besides the positional answer, the persisted log must hold exactly the successful elements, in order. Non-trivial = >=3 elements with a failure strictly inside; distinct by (actions, failure pattern, flag)."
 	c.Assumptions = []string{"the backend is a recording fake answering from the generated failure pattern; an element with an unknown action cannot be executed and therefore counts as failing"}
 	runProp(t, c, func(rt *rapid.T) {
+		if rapid.IntRange(0, 3).Draw(rt, "realEngine") == 0 {
+			c18RealEngine(rt, c)
+			return
+		}
 		n := rapid.IntRange(0, 8).Draw(rt, "n")
 		elems := make([]bulkElem, n)
 		for i := range elems {
@@ -439,4 +446,155 @@ func TestC18(t *testing.T) {
 			return
 		}
 	})
+}
+
+// c18RealEngine: bulk elements with outcomes known by construction, executed by a real Commander.
+func c18RealEngine(rt *rapid.T, c *evid.Collector) {
+	store, commander, stop := enginesim.Standalone()
+	defer stop()
+	be := httpsim.NewFakeBackend()
+	be.Override = func(name string) backend.Ledger {
+		return &httpsim.EngineLedger{FakeLedger: &httpsim.FakeLedger{Name: name}, Commander: commander}
+	}
+	router := httpsim.NewRouter(be, false)
+	n := rapid.IntRange(1, 8).Draw(rt, "rn")
+	type el struct {
+		body string
+		ok   bool
+		kind string
+		mark string
+	}
+	var els []el
+	txs := 0 // transactions committed so far in this bulk (ids are 0,1,2,...)
+	reverted := map[int]bool{}
+	simulate := func(upto int, cont bool) {}
+	_ = simulate
+	// the outcome of an element depends on what ran before it; elements are built against the
+	// state the bulk will have if every earlier element ran (continue-on-failure) -- failing
+	// elements leave no trace, so the state is the same without continue-on-failure up to the stop
+	for i := 0; i < n; i++ {
+		mark := fmt.Sprint(2000 + i)
+		switch rapid.SampledFrom([]string{"fund", "fund", "spend-unfunded", "revert-ok", "revert-missing", "meta-account", "meta-missing-tx", "delete-account", "unknown"}).Draw(rt, "rkind") {
+		case "fund":
+			els = append(els, el{`{"action":"CREATE_TRANSACTION","data":{"postings":[{"source":"world","destination":"acc` + mark + `","asset":"USD","amount":5}],"metadata":{"el":"` + mark + `"}}}`, true, "tx", mark})
+			txs++
+		case "spend-unfunded":
+			els = append(els, el{`{"action":"CREATE_TRANSACTION","data":{"postings":[{"source":"empty` + mark + `","destination":"x","asset":"USD","amount":5}],"metadata":{"el":"` + mark + `"}}}`, false, "tx", mark})
+		case "revert-ok":
+			target := -1
+			for t := 0; t < txs; t++ {
+				if !reverted[t] {
+					target = t
+					break
+				}
+			}
+			if target < 0 {
+				els = append(els, el{`{"action":"REVERT_TRANSACTION","data":{"id":999,"force":false}}`, false, "revert", mark})
+				break
+			}
+			reverted[target] = true
+			els = append(els, el{fmt.Sprintf(`{"action":"REVERT_TRANSACTION","data":{"id":%d,"force":true}}`, target), true, "revert", fmt.Sprint(target)})
+			txs++
+			reverted[txs-1] = true // a reverting transaction is not reverted again here
+		case "revert-missing":
+			els = append(els, el{`{"action":"REVERT_TRANSACTION","data":{"id":777,"force":false}}`, false, "revert", mark})
+		case "meta-account":
+			els = append(els, el{`{"action":"ADD_METADATA","data":{"targetType":"ACCOUNT","targetId":"acc` + mark + `","metadata":{"el":"` + mark + `"}}}`, true, "meta", mark})
+		case "meta-missing-tx":
+			els = append(els, el{`{"action":"ADD_METADATA","data":{"targetType":"TRANSACTION","targetId":555,"metadata":{"el":"` + mark + `"}}}`, false, "meta", mark})
+		case "delete-account":
+			els = append(els, el{`{"action":"DELETE_METADATA","data":{"targetType":"ACCOUNT","targetId":"acc` + mark + `","key":"k` + mark + `"}}`, true, "delete", mark})
+		case "unknown":
+			els = append(els, el{`{"action":"NOPE","data":{}}`, false, "unknown", mark})
+		}
+	}
+	cont := rapid.Bool().Draw(rt, "rcont")
+	var parts []string
+	for _, e := range els {
+		parts = append(parts, e.body)
+	}
+	body := "[" + strings.Join(parts, ",") + "]"
+	target := "/api/ledger/v2/l1/_bulk"
+	if cont {
+		target += "?continueOnFailure=true"
+	}
+	rec := httpsim.Serve(router, http.MethodPost, target, map[string]string{"Content-Type": "application/json"}, body)
+	// model
+	var processed []int
+	anyFailed := false
+	firstFail := -1
+	for i, e := range els {
+		processed = append(processed, i)
+		if !e.ok {
+			anyFailed = true
+			if firstFail < 0 {
+				firstFail = i
+			}
+			if !cont {
+				break
+			}
+		}
+	}
+	var pat []string
+	for _, e := range els {
+		pat = append(pat, fmt.Sprintf("%s:%v", e.kind, e.ok))
+	}
+	c.Case(evid.Key("real", strings.Join(pat, ","), cont), len(els) >= 3 && firstFail > 0 && firstFail < len(els)-1, []string{"real-engine", fmt.Sprintf("real-elements:%d", len(els))}, func() any {
+		return map[string]any{"family": "real engine", "body": json.RawMessage(body), "continueOnFailure": cont, "status": rec.Code, "response": clip(rec.Body.String())}
+	})
+	fail := func(sig, format string, args ...any) {
+		if c.IsKnown(sig) {
+			return
+		}
+		rt.Logf("body: %s\ncontinueOnFailure: %v\nstatus: %d\nresponse: %s", body, cont, rec.Code, clip(rec.Body.String()))
+		violation(rt, c, sig, format, args...)
+	}
+	var resp struct {
+		Data []struct {
+			ResponseType string `json:"responseType"`
+			ErrorCode    string `json:"errorCode"`
+		} `json:"data"`
+	}
+	if err := json.Unmarshal(rec.Body.Bytes(), &resp); err != nil {
+		fail("C18/response-undecodable", "response does not decode: %v", err)
+		return
+	}
+	if len(resp.Data) != len(processed) {
+		fail("C18/result-count", "the response has %d result(s) for %d processed element(s)", len(resp.Data), len(processed))
+		return
+	}
+	for pi, i := range processed {
+		isErr := resp.Data[pi].ResponseType == "ERROR"
+		if isErr == els[i].ok {
+			fail("C18/position", "result %d says error=%v but element %d (%s) %s", pi, isErr, i, els[i].kind, map[bool]string{true: "must succeed", false: "must fail"}[els[i].ok])
+			return
+		}
+	}
+	if anyFailed != (rec.Code >= 400) {
+		fail("C18/status", "status %d although failed=%v", rec.Code, anyFailed)
+		return
+	}
+	// the persisted log holds exactly the successful processed elements, in order
+	var want []string
+	for _, i := range processed {
+		if els[i].ok {
+			want = append(want, els[i].kind+":"+els[i].mark)
+		}
+	}
+	var got []string
+	for _, e := range store.Entries {
+		switch p := e.Log.Data.(type) {
+		case ledger.NewTransactionLogPayload:
+			got = append(got, "tx:"+p.Transaction.Metadata["el"])
+		case ledger.RevertedTransactionLogPayload:
+			got = append(got, "revert:"+p.RevertedTransactionID.String())
+		case ledger.SetMetadataLogPayload:
+			got = append(got, "meta:"+p.Metadata["el"])
+		case ledger.DeleteMetadataLogPayload:
+			got = append(got, "delete:"+strings.TrimPrefix(p.Key, "k"))
+		}
+	}
+	if strings.Join(got, ",") != strings.Join(want, ",") {
+		fail("C18/real-engine-log", "the log holds %v, the bulk defines %v (executed strictly in order, stopping at the first failure unless asked to continue)", got, want)
+	}
 }
